@@ -57,16 +57,82 @@ type c38Params struct {
 	MinN       int     // minersc.min_n of this history (the repository's sc.yaml says 3)
 	LateExtras bool    // newcomers are in the chain's current magic block but register in the rounds LateAt, not in the set-up block
 	LateAt     []int64 // registration round per newcomer (miners first, then sharders)
+	// histories with more DKG candidates than max_n and unequal stakes: the final reduction of the DKG set really selects
+	BigSet       bool
+	MaxN         int     // minersc.max_n of this history (0: the repository's sc.yaml value, 7)
+	XPercent     float64 // minersc.x_percent: share of the seats reserved for miners of the previous set
+	KPercent     float64
+	TPercent     float64
+	StakeProfile string
+	StakeUnits   []int // stake of the i-th miner (genesis miners first, then the newcomers), in units of 1e10; all different
 }
 
 // c38Hists is the number of ordinary histories of a tier; the step-failure histories follow them (indices c38Hists.. onwards).
 func c38Hists(tier string) int     { return scale(tier, 24, 64) }
 func c38StepHists(tier string) int { return scale(tier, 8, 16) }
 
+// c38BigHists is the number of histories in which more miners run the key generation than max_n allows into a magic block.
+func c38BigHists(tier string) int { return scale(tier, 8, 24) }
+
+const c38SilentTopPolicy = "top-staked-previous-silent-in-publish"
+
+// c38BigParams: 4 miners of the previous (genesis) set and 3 or 4 newcomers, all registered from the first block on, max_n 4 or 5,
+// one or two seats reserved for the previous set, and every miner staked with a different amount. Three of four histories put one or
+// two miners of the previous set on top of the stake order, the newcomers next and the rest of the previous set at the bottom - the
+// order in which the reserved seats and the open seats go to different groups; the fourth draws the order at random.
+func c38BigParams(p c38Params, k int, r *mon.Rand) c38Params {
+	for i := range p.PhaseRounds {
+		p.PhaseRounds[i] = int64(2 + r.Intn(3))
+	}
+	p.BigSet, p.EarlyExtras, p.Hostile = true, true, 0.12
+	p.MaxN, p.ExtraMiners, p.ExtraShard = 4, 3, 1
+	if k%8 == 5 {
+		p.MaxN, p.ExtraMiners = 5, 4
+	}
+	p.XPercent = []float64{0.25, 0.2, 0.4, 0.25}[k%4] // with max_n = 4: 1, 1, 2, 1 reserved seats
+	p.KPercent, p.TPercent = 0.4, 0.3
+	if k%4 == 1 {
+		p.KPercent, p.TPercent = 0.75, 0.5
+	}
+	nPrev, n := 4, 4+p.ExtraMiners
+	prev := []int{0, 1, 2, 3}
+	var nw []int
+	for i := nPrev; i < n; i++ {
+		nw = append(nw, i)
+	}
+	r.Shuffle(len(prev), func(i, j int) { prev[i], prev[j] = prev[j], prev[i] })
+	r.Shuffle(len(nw), func(i, j int) { nw[i], nw[j] = nw[j], nw[i] })
+	var order []int // best staked first
+	switch k % 4 {
+	case 0:
+		p.StakeProfile = "one-previous-on-top"
+		order = append(append(append(order, prev[:1]...), nw...), prev[1:]...)
+	case 1:
+		h := 1 + r.Intn(2)
+		p.StakeProfile = fmt.Sprintf("%d-previous-on-top", h)
+		order = append(append(append(order, prev[:h]...), nw...), prev[h:]...)
+	case 2:
+		p.StakeProfile = "two-previous-on-top"
+		order = append(append(append(order, prev[:2]...), nw...), prev[2:]...)
+	default:
+		p.StakeProfile = "random"
+		order = append(append(order, prev...), nw...)
+		r.Shuffle(len(order), func(i, j int) { order[i], order[j] = order[j], order[i] })
+	}
+	p.StakeUnits = make([]int, n)
+	for rank, i := range order {
+		p.StakeUnits[i] = 2 * (n - rank)
+	}
+	return p
+}
+
 func c38ParamsOf(tier string, idx int) c38Params {
 	r := mon.NewRand(mon.Seed()).Fork(fmt.Sprintf("c38-params-%d", idx))
 	p := c38Params{Idx: idx, WorldSeed: mon.Seed()*977 + uint64(idx), MinN: 3}
 	p.Rounds = scale(tier, 130, 600)
+	if base := c38Hists(tier) + c38StepHists(tier); idx >= base {
+		return c38BigParams(p, idx-base, r)
+	}
 	if idx >= c38Hists(tier) {
 		// K <= contributions < min_n is possible here: the end of Contribute finds K public keys (condition holds) but the DKG list
 		// cannot be cut down to the contributors; the end of Publish finds K share sets but the magic block would have too few miners;
@@ -112,6 +178,7 @@ type actor struct {
 	Registered bool
 	Host       string
 	Port       int
+	Stake      currency.Coin // what the node is staked with when it registers (0: the same 5e10 for everybody)
 }
 
 type c38 struct {
@@ -143,6 +210,9 @@ type c38 struct {
 	oplog       []string
 	mbProduced  int
 	viewChanges int
+
+	// who the plan of the running cycle kept silent in Publish although it contributed a key (policy c38SilentTopPolicy)
+	silentInPublish map[string]bool
 
 	// reference: the round of the last observed reset of the key generation
 	restartAt   int64
@@ -347,9 +417,15 @@ func (c *c38) register(a *actor) result {
 		if a.Kind == "sharder" {
 			pt = 2
 		}
-		c.exec(a.W, "addToDelegatePool", map[string]interface{}{"provider_type": pt, "provider_id": a.W.ID}, nil, 5e10)
+		stake := currency.Coin(5e10)
+		if a.Stake > 0 {
+			stake = a.Stake
+		}
+		if sr := c.exec(a.W, "addToDelegatePool", map[string]interface{}{"provider_type": pt, "provider_id": a.W.ID}, nil, stake); a.Stake > 0 && !sr.OK {
+			panic(fmt.Sprintf("node %s could not be staked with %d: %s %s", a.W.Name, stake, sr.Output, sr.Err))
+		}
 	}
-	c.logf("r%d %s %s -> ok=%v %s", c.round, fn, a.W.Name, res.OK, trunc(res.Output, 80))
+	c.logf("r%d %s %s stake=%d -> ok=%v %s", c.round, fn, a.W.Name, a.Stake, res.OK, trunc(res.Output, 80))
 	return res
 }
 
@@ -558,8 +634,13 @@ func (c *c38) plan(v vcState) {
 			// phase holds and the phase's own step cannot complete
 			c.policy = []string{"exactly-k", "k-of-n-publish"}[c.r.Intn(2)]
 		}
+		if c.p.BigSet && c.r.Chance(0.7) {
+			// everybody contributes a key; in Publish some of the best staked miners of the previous set stay silent
+			c.policy = c38SilentTopPolicy
+		}
 		c.dkgs = map[string]*tbls.DKG{}
 		c.lastPub = map[string][]byte{}
+		c.silentInPublish = map[string]bool{}
 	case minersc.Contribute:
 		c.dkgT = v.DKG.T
 		ids := members()
@@ -611,6 +692,9 @@ func (c *c38) plan(v vcState) {
 				ids = ids[:max(0, v.DKG.K)]
 			}
 		}
+		if c.policy == c38SilentTopPolicy {
+			ids = c.silentTopStaked(v, ids)
+		}
 		for _, id := range ids {
 			c.offsets[id] = off()
 		}
@@ -624,6 +708,52 @@ func (c *c38) plan(v vcState) {
 		}
 	}
 	c.logf("r%d plan phase=%s policy=%s dkg=%d T=%d K=%d N=%d actors=%d", c.round, phaseName(ph), c.policy, len(v.DKG.SimpleNodes), v.DKG.T, v.DKG.K, v.DKG.N, len(c.offsets))
+}
+
+// silentTopStaked takes the publishers of a cycle and removes the s best staked miners of the previous set that contributed a key
+// (1 <= s < number of such miners; the stake order is the one the harness staked the nodes with), now and then one newcomer too.
+func (c *c38) silentTopStaked(v vcState, ids []string) []string {
+	var prev []*actor
+	for _, id := range ids {
+		if _, ok := v.MPKs.Mpks[id]; ok && c.prevMiners[id] {
+			if a := c.actorOf(id); a != nil {
+				prev = append(prev, a)
+			}
+		}
+	}
+	if len(prev) < 2 {
+		return ids
+	}
+	sort.SliceStable(prev, func(i, j int) bool {
+		if prev[i].Stake != prev[j].Stake {
+			return prev[i].Stake > prev[j].Stake
+		}
+		return prev[i].W.ID < prev[j].W.ID
+	})
+	s := 1 + c.r.Intn(len(prev)-1)
+	for _, a := range prev[:s] {
+		c.silentInPublish[a.W.ID] = true
+	}
+	if c.r.Chance(0.25) {
+		var nw []string
+		for _, id := range ids {
+			if _, ok := v.MPKs.Mpks[id]; ok && !c.prevMiners[id] {
+				nw = append(nw, id)
+			}
+		}
+		if len(nw) > 0 {
+			sort.Strings(nw)
+			c.silentInPublish[nw[c.r.Intn(len(nw))]] = true
+		}
+	}
+	var out []string
+	for _, id := range ids {
+		if !c.silentInPublish[id] {
+			out = append(out, id)
+		}
+	}
+	c.logf("r%d plan publish: %d of %d contributing miners of the previous set stay silent (best staked first), %d miners silent in all", c.round, s, len(prev), len(c.silentInPublish))
+	return out
 }
 
 func (c *c38) contribute(a *actor, class string, mpk []string, raw []byte) {
@@ -1333,6 +1463,38 @@ func (c *c38) judgeMB(rn int64, after, mid vcState, ev map[string]interface{}) {
 	if c.mbProduced <= 2 && c.p.Idx < 3 {
 		c.run.Sample(map[string]interface{}{"child": c.p.Idx, "round": rn, "magic_block": ev["mb"], "policy": c.policy})
 	}
+	if c.p.BigSet {
+		// what the final reduction of the DKG set had to choose from: the miners that contributed a key and published their shares
+		pub, pubPrev, silentPrev := 0, 0, 0
+		for id := range mid.GSoS.Shares {
+			_, a := mid.DKG.SimpleNodes[id]
+			_, b := mid.MPKs.Mpks[id]
+			if a && b {
+				pub++
+				if c.prevMiners[id] {
+					pubPrev++
+				}
+			}
+		}
+		for id := range c.silentInPublish {
+			if _, ok := mid.GSoS.Shares[id]; !ok && c.prevMiners[id] {
+				silentPrev++
+			}
+		}
+		ev["big_set"] = map[string]interface{}{"max_n": c.p.MaxN, "x_percent": c.p.XPercent, "stake_profile": c.p.StakeProfile, "publishers": pub, "publishers_of_previous_set": pubPrev, "silent_contributors_of_previous_set": silentPrev, "contributors": len(mid.MPKs.Mpks)}
+		c.run.Count("big-set:magic-blocks", 1)
+		if len(mid.MPKs.Mpks) > c.p.MaxN {
+			c.run.Count("big-set:magic-block-from-more-contributors-than-max_n", 1)
+		}
+		if pub > c.p.MaxN {
+			c.run.Count("big-set:magic-block-from-more-publishers-than-max_n", 1)
+		}
+		if silentPrev > 0 && pubPrev > 0 {
+			c.run.Count("big-set:magic-block-after-best-staked-previous-miners-stayed-silent", 1)
+		}
+		c.run.Distinct(fmt.Sprintf("big-set:magic-block:max_n=%d:x=%.2f:stakes=%s:publishers=%d:of-previous=%d:silent-previous=%d:miners=%d:policy=%s", c.p.MaxN, c.p.XPercent, c.p.StakeProfile, pub, pubPrev, silentPrev, len(miners), c.policy))
+		c.logf("r%d magic block of %d miners from %d publishers (%d of the previous set; %d contributors of the previous set silent), max_n=%d", rn, len(miners), pub, pubPrev, silentPrev, c.p.MaxN)
+	}
 	if !hasM {
 		c.lim.Violate("C38:magic-block-without-previous-member", fmt.Sprintf("round %d: the produced magic block has %d miners, none of them from the previous set (%d)", rn, len(miners), len(c.prevMiners)), c.replay(ev))
 	}
@@ -1393,6 +1555,13 @@ func c38Child(tier string, idx int) (code int) {
 	}
 	if p.StepFail > 0 {
 		sc["minersc.min_n"] = p.MinN
+	}
+	if p.BigSet {
+		// 7 or 8 miners run the key generation, max_n of them fit into the magic block (N = max_n, K and T follow from it)
+		sc["minersc.max_n"] = p.MaxN
+		sc["minersc.x_percent"] = p.XPercent
+		sc["minersc.k_percent"] = p.KPercent
+		sc["minersc.t_percent"] = p.TPercent
 	}
 	c.w = world.New(world.Options{Seed: p.WorldSeed, ViewChange: true, NumClients: 6, SCSet: sc})
 	defer c.w.Close()
@@ -1469,6 +1638,16 @@ func c38Child(tier string, idx int) (code int) {
 			panic("the latest finalized magic block changed")
 		}
 	}
+	if p.BigSet {
+		mi := 0
+		for _, a := range c.nodes {
+			if a.Kind == "miner" {
+				a.Stake = currency.Coin(p.StakeUnits[mi]) * 1e10
+				mi++
+			}
+		}
+	}
+	c.silentInPublish = map[string]bool{}
 	c.planPhase = -1
 	c.dkgs = map[string]*tbls.DKG{}
 	c.lastPub = map[string][]byte{}
@@ -1497,8 +1676,15 @@ func c38Child(tier string, idx int) (code int) {
 		if c.round%20 == 0 {
 			run.Checkpoint()
 		}
+		if p.BigSet && c.viewChanges > 0 {
+			// the seats the contract reserves for the previous set go by the chain's latest finalized magic block, which stays the
+			// genesis one in this world; the set in force (and the oracle's previous set) moves on with the first view change. The
+			// history ends where the two part.
+			run.Count("big-set:histories-ended-at-first-view-change", 1)
+			break
+		}
 	}
-	run.Count("rounds", int64(p.Rounds))
+	run.Count("rounds", c.round)
 	run.Count("children_completed", 1)
 	fmt.Printf("C38 child %d done: rounds=%d full_cycles=%d mbs=%d\n", idx, p.Rounds, run.Counter("full_cycles"), c.mbProduced)
 	run.Checkpoint()
@@ -1507,8 +1693,8 @@ func c38Child(tier string, idx int) (code int) {
 
 func c38Parent(tier string) int {
 	run := mon.NewRun("C38", tier, "exploration",
-		"block histories on a view-change-enabled chain (4 genesis miners + 2 sharders registered and staked, up to 3 more miners and 1 sharder joining), every block executed through the real Chain.UpdateState and closed by the generator's payFees; per cycle a policy decides who contributes keys / keeps sharders / publishes shares / waits (real DKG polynomials, signatures of the real node keys), hostile DKG transactions are mixed in at any time; 8 further histories (16 in the thorough tier) run with min_n above K (4 miners min_n=4, or 7 known miners min_n=5 registering late) and policies with exactly K contributors / exactly K publishers, so that phases end with their condition holding and their step unable to complete; the phase node, DKG list, keys, shares, keep list and magic block are read back raw from the state trie after every transaction/block; distinct = (function, phase, input class, outcome) and (transition, policy, payFees variant) tuples")
-	n := c38Hists(tier) + c38StepHists(tier)
+		"block histories on a view-change-enabled chain (4 genesis miners + 2 sharders registered and staked, up to 3 more miners and 1 sharder joining), every block executed through the real Chain.UpdateState and closed by the generator's payFees; per cycle a policy decides who contributes keys / keeps sharders / publishes shares / waits (real DKG polynomials, signatures of the real node keys), hostile DKG transactions are mixed in at any time; 8 further histories (16 in the thorough tier) run with min_n above K (4 miners min_n=4, or 7 known miners min_n=5 registering late) and policies with exactly K contributors / exactly K publishers, so that phases end with their condition holding and their step unable to complete; the phase node, DKG list, keys, shares, keep list and magic block are read back raw from the state trie after every transaction/block; 8 more histories (24 in the thorough tier) register 7 or 8 miners (4 of the previous set, 3-4 newcomers) with max_n 4 or 5, 1-2 seats reserved for the previous set (x_percent) and a different stake for every miner (previous-set miners on top of the stake order and at its bottom, newcomers between, or a random order), so that the final reduction of the DKG set really selects; in most of their cycles every miner contributes a key and the 1..n-1 best staked contributing miners of the previous set (now and then a newcomer too) never publish their shares while the others do; these histories end at their first view change; distinct = (function, phase, input class, outcome) and (transition, policy, payFees variant) tuples")
+	n := c38Hists(tier) + c38StepHists(tier) + c38BigHists(tier)
 	var specs []mon.ChildSpec
 	for i := 0; i < n; i++ {
 		specs = append(specs, mon.ChildSpec{Name: fmt.Sprintf("hist-%d", i), Args: childArgs("C38", tier, "hist", i, ""), Timeout: time.Duration(scale(tier, 110, 900)) * time.Second})
@@ -1534,10 +1720,13 @@ func c38Parent(tier string) int {
 	run.RequireMin("boundary:condition-holds-but-fewer-than-min_n:start", int64(scale(tier, 2, 8)))
 	run.RequireMin("monitor:restart-lands-at-start", int64(scale(tier, 60, 400)))
 	run.RequireMin("monitor:contribute-entry", int64(scale(tier, 100, 800)))
+	run.RequireMin("big-set:magic-block-from-more-publishers-than-max_n", int64(scale(tier, 4, 12)))
+	run.RequireMin("big-set:magic-block-after-best-staked-previous-miners-stayed-silent", int64(scale(tier, 3, 9)))
 	run.Assume("a reset of the key generation is recognised from the state around one payFees: the phase went back to start, or the public keys gathered so far are gone without the phase having advanced, or the stored restart count grew; the participating miners of a contribute phase are the miners whose add_miner succeeded (nothing in these histories removes a miner)")
 	run.Assume("move conditions are judged as necessary conditions only (elapsed rounds from the contract's PhaseRounds, number of keys / share sets against K, kept sharders against min_s, a previous-set miner among the keys); a restart that the statement would not require is not a violation")
 	run.Assume("the chain's own latest finalized magic block stays the genesis one (no finalization in this world); the contract keeps the magic block of each completed view change in its global node, and the oracle tracks the membership in force from the stored bytes of the magic blocks that blocks actually carried")
 	run.Assume("add_miner/add_sharder only take nodes of the chain's current magic block; every third history therefore installs a current magic block (number 2) that also lists 3 new miners and 1 new sharder while the latest finalized one stays genesis, and lowers k_percent/t_percent so that the newcomers alone reach K: only then can a key generation without a previous member be attempted at all")
+	run.Assume("the histories with more miners than max_n end at their first view change: the contract reserves seats for the miners of the chain's latest finalized magic block, which stays the genesis one in this world, while the set in force moves on with a view change; up to that point the two are the same set")
 	run.Assume("DKG polynomials come from bls.MakeDKG (CSPRNG): key material differs between runs, the case classes are functions of VERIF_SEED")
 	return run.Finish()
 }
